@@ -52,6 +52,7 @@ func drive(args []string) error {
 	out := fs.String("out", "trace.ndjson", "")
 	seed := fs.Int64("seed", 1, "")
 	rounds := fs.Int("rounds", 10, "")
+	gated := fs.Int("gated", 4, "gated rounds: a mining request is made to queue on chainLock behind an InsertBlock that moves the head")
 	if err := fs.Parse(args); err != nil {
 		return err
 	}
@@ -83,6 +84,11 @@ func drive(args []string) error {
 	defer builder.Destroy()
 	rng := rand.New(rand.NewSource(*seed))
 	totalEmits, totalEvents := 0, 0
+	for g := 0; g < *gated; g++ {
+		if err := gatedRound(dir, g, emit); err != nil {
+			return err
+		}
+	}
 	for r := 0; r < *rounds; r++ {
 		// a random tree of nb blocks
 		x := &ids{byHash: map[common.Hash]int{builder.Genesis.Hash(): 0}}
@@ -238,9 +244,11 @@ func drive(args []string) error {
 		wg.Add(1)
 		go func() { // the miner thread
 			defer wg.Done()
-			for i := 0; i < 6; i++ {
+			for i := 0; i < 40; i++ { // keeps queueing on chainLock behind the inserters
 				n.DP.MineBlock(1000)
-				time.Sleep(time.Millisecond)
+				if i%8 == 7 {
+					time.Sleep(time.Millisecond)
+				}
 			}
 		}()
 		wg.Add(1)
@@ -291,6 +299,123 @@ func drive(args []string) error {
 		n.Destroy()
 	}
 	fmt.Printf("{\"rounds\": %d, \"lines\": %d, \"engine_events\": %d, \"emitted_confirms\": %d}\n", *rounds, lines, totalEvents, totalEmits)
+	return nil
+}
+
+// gatedRound forces one interleaving: InsertBlock(B) holds chainLock (the hook, which runs under the lock, waits) while a
+// mining request arrives and queues on the lock; then InsertBlock completes.  In every sequential order of the two calls the
+// mined block is a child of the head at the time the request takes effect.  The universe is laid out so that this node
+// (rank 1) is in turn both on genesis (second slot) and on B (first slot after B), whatever the request reads.
+func gatedRound(dir string, g int, emit func(map[string]interface{})) error {
+	const slotSec = 1000
+	w := node.NewWorld(nd, slotSec*1000)
+	w.GenesisTime = uint32(time.Now().Unix()) - slotSec - 10
+	builder := w.NewNode(filepath.Join(dir, fmt.Sprintf("gbuilder%d", g)))
+	defer builder.Destroy()
+	blk, _, err := builder.BuildWith(builder.Genesis, 0, 0, nil, fmt.Sprintf("g%d", g), func(h *types.Header) { h.Time = w.GenesisTime + slotSec - 1 }, true)
+	if err != nil {
+		return fmt.Errorf("gated build: %v", err)
+	}
+	n := w.NewNode(filepath.Join(dir, fmt.Sprintf("gnut%d", g)))
+	defer n.Destroy()
+	byHash := map[common.Hash]int{n.Genesis.Hash(): 0, blk.Hash(): 1}
+	parent, miner := []int{0}, []int{1}
+	var evs []map[string]interface{}
+	project := func(fl map[string]interface{}) {
+		stable, head := n.DP.StableBlock(), n.DP.CurrentBlock()
+		newb := []map[string]int{}
+		idOf := func(b *types.Block) int {
+			if id, ok := byHash[b.Hash()]; ok {
+				return id
+			}
+			id := len(parent) + 1
+			byHash[b.Hash()] = id
+			pid := byHash[b.ParentHash()]
+			mr := -1
+			if nid, err := b.SignerNodeID(); err == nil {
+				mr = w.DeputyOf(nid)
+			}
+			parent, miner = append(parent, pid), append(miner, mr+1)
+			newb = append(newb, map[string]int{"id": id, "parent": pid, "miner": mr + 1})
+			return id
+		}
+		unconf := []int{}
+		signers := map[string][]int{}
+		var ub []*types.Block
+		n.DB.IterateUnConfirms(func(b *types.Block) { ub = append(ub, b) })
+		sort.Slice(ub, func(i, j int) bool { return ub[i].Height() < ub[j].Height() })
+		for _, b := range ub {
+			id := idOf(b)
+			unconf = append(unconf, id)
+			rs, _ := w.Signers(b)
+			o := []int{}
+			for _, q := range rs {
+				o = append(o, q+1)
+			}
+			sort.Ints(o)
+			signers[strconv.Itoa(id)] = o
+		}
+		sort.Ints(unconf)
+		chain := []int{}
+		for h := uint32(1); h <= stable.Height(); h++ {
+			b, err := n.DB.GetBlockByHeight(h)
+			if err != nil {
+				continue
+			}
+			id := idOf(b)
+			chain = append(chain, id)
+			rs, _ := w.Signers(b)
+			o := []int{}
+			for _, q := range rs {
+				o = append(o, q+1)
+			}
+			sort.Ints(o)
+			signers[strconv.Itoa(id)] = o
+		}
+		fl["stable"], fl["head"] = idOf(stable), idOf(head)
+		fl["unconf"], fl["chain"], fl["new"], fl["signers"] = unconf, chain, newb, signers
+	}
+	mineNow := make(chan struct{})
+	mineDone := make(chan struct{})
+	go func() {
+		<-mineNow
+		n.DP.MineBlock(1000)
+		close(mineDone)
+	}()
+	armed := true
+	consensus.VerifEngineHook = func(dp *consensus.DPoVP, ev consensus.VerifEngineEvent) {
+		if dp != n.DP {
+			return
+		}
+		fl := map[string]interface{}{"ev": ev.Op, "seq": ev.Seq, "b": -1, "exists": false}
+		if ev.Op != "MineBlock" {
+			if id, ok := byHash[ev.Hash]; ok {
+				fl["b"] = id
+			}
+			ex, _ := n.DB.IsExistByHash(ev.Hash)
+			fl["exists"] = ex
+		}
+		project(fl)
+		evs = append(evs, fl)
+		if armed && ev.Op == "InsertBlock" {
+			armed = false
+			close(mineNow)                    // the mining request starts now, while chainLock is still held here
+			time.Sleep(30 * time.Millisecond) // let it reach the lock (a missed rendezvous only loses the interleaving, never a verdict)
+		}
+	}
+	n.DP.InsertBlock(node.Copy(blk, nil))
+	select {
+	case <-mineDone:
+	case <-time.After(20 * time.Second):
+		return fmt.Errorf("gated round: mining request did not return")
+	}
+	consensus.VerifEngineHook = nil
+	emit(map[string]interface{}{"ev": "reset", "beh": 1000 + g, "nd": nd, "self": self, "parent": []int{0}, "miner": []int{1},
+		"stable": 0, "head": 0, "unconf": []int{}, "chain": []int{}})
+	for _, fl := range evs {
+		fl["beh"] = 1000 + g
+		emit(fl)
+	}
 	return nil
 }
 
